@@ -14,10 +14,11 @@ Inductive lc :=
 | Reacq (o : Z) (poison_ok : bool)  (* Pool.AcquireMessage handed out the recycled o; poison pattern intact? *)
 | Hold (o : Z)                (* the application legitimately holds o from now on *)
 | Unhold (o : Z) (same : bool)(* the hold ends; content unchanged since Hold? *)
-| AppRel (o : Z).             (* the application itself is about to release o *)
+| AppRel (o : Z)              (* the application itself is about to release o *)
+| Use (o : Z).                (* somebody reads or writes o (an accessor of the message was called, or its body was read) *)
 
 Definition obj (e : lc) : Z :=
-  match e with Rel o | Rec o | Reacq o _ | Hold o | Unhold o _ | AppRel o => o end.
+  match e with Rel o | Rec o | Reacq o _ | Hold o | Unhold o _ | AppRel o | Use o => o end.
 
 Inductive ostate :=
 | Live        (* owned by the library or by the application, not in the pool *)
@@ -29,7 +30,9 @@ Inductive ostate :=
 (* result of feeding one event to the per-object automaton: next state or a violation class
    1 double release, 2 released while the application holds it, 3 content changed while held,
    4 written after release (poison broken), 5 handed to the application after release,
-   6 pool automaton broken (recycled without release, re-acquired while not pooled, hold mismatch) *)
+   6 pool automaton broken (recycled without release, re-acquired while not pooled, hold mismatch),
+   7 used after release: the message is read or written while it is in nobody's hands (between ReleaseMessage
+     and the next hand-out by AcquireMessage) *)
 Definition auto_step (s : ostate) (e : lc) : ostate + N :=
   match e, s with
   | Rel _, Live => inl Freed
@@ -48,6 +51,8 @@ Definition auto_step (s : ostate) (e : lc) : ostate + N :=
   | AppRel _, (Live | Held) => inl Releasing
   | AppRel _, (Freed | Pooled) => inr 1%N
   | AppRel _, Releasing => inr 1%N
+  | Use _, (Freed | Pooled) => inr 7%N
+  | Use _, _ => inl s
   end.
 
 Fixpoint run_obj (s : ostate) (t : list lc) : ostate + N :=
@@ -226,7 +231,7 @@ Fixpoint wdisc (cur : Z) (ended : bool) (own seen : list Z) (ops : list wop) : b
 Definition ren (f : Z -> Z) (e : lc) : lc :=
   match e with
   | Rel o => Rel (f o) | Rec o => Rec (f o) | Reacq o b => Reacq (f o) b
-  | Hold o => Hold (f o) | Unhold o b => Unhold (f o) b | AppRel o => AppRel (f o)
+  | Hold o => Hold (f o) | Unhold o b => Unhold (f o) b | AppRel o => AppRel (f o) | Use o => Use (f o)
   end.
 Definition env_f (env : list Z) (i : Z) : Z := nth (Z.to_nat i) env 0.
 
@@ -321,3 +326,127 @@ Definition bw_has_sent_request (call : Z) (blk : bool) (dead : list Z) : bool :=
    message's object was hijacked in an earlier life, size of receivingMessagesCache afterwards, lifecycle events
    recorded while ProcessReceivedMessageWithHandler ran *)
 Inductive bw_step := BwStep (tok call : Z) (blk : bool) (k : bw_kind) (wrote_con stale : bool) (entries : Z) (window : list lc).
+
+(* ================================================================================================
+   Accesses to a message (round 3): `Use o`.
+
+   The pool's hook reports every call of an accessor of a message (getters and setters); the harness
+   records the call as `Use o` when o is in nobody's hands at that moment (released and not handed out
+   again).  Two places of the library where WHEN a message is read decides whether that can happen: *)
+
+(* ---- udp AsyncPing: who finishes the ping ----
+   The ping message req belongs to the pending entry (midHandlerContainer).  The entry is consumed - and req
+   released - by whoever comes first: the pong / reset of the peer (handleSpecialMessages), the expiry sweep
+   (checkMidHandlerContainer) or the cancel function AsyncPing returned; whoever comes later finds no entry and
+   does nothing.  The cancel function finds the entry through the message ID it REMEMBERED (a local variable);
+   `late_read` is the variant that asks the ping message for it (req.MessageID()), whatever happened to req. *)
+Inductive pfin := FPong | FExpiry | FCancel.
+
+Fixpoint ping_fin (req : Z) (late_read consumed : bool) (fs : list pfin) : list lc :=
+  match fs with
+  | [] => []
+  | f :: r => (match f with FCancel => if late_read then [Use req] else [] | _ => [] end) ++
+              (if consumed then [] else rel req) ++ ping_fin req late_read true r
+  end.
+
+(* the ping is written (the library reads req) while the entry is pending, then the finishers come in any order,
+   any number of times *)
+Definition path_async_ping_fin (req : Z) (late_read : bool) (fs : list pfin) : list lc :=
+  Use req :: ping_fin req late_read false fs.
+
+(* the same, as seen by the goroutine that performs each step (what family K of the harness records): the entry is
+   pending with n retransmissions behind it, or gone.  Objects: 0 = the ping message, fresh numbers for the
+   temporaries: the writer message acquired for the dispatch of the pong to the entry's handler, the copy a
+   retransmission works on.  maxrt = Config.TransmissionMaxRetransmit. *)
+Inductive pstate := PPending (retx : nat) | PGone.
+
+Definition ping_step (maxrt : nat) (late_read : bool) (s : pstate) (next : Z) (f : pfin) : pstate * Z * list lc :=
+  match s, f with
+  | PPending _, FPong => (PGone, next + 1, rel 0 ++ rel next)
+  | PPending n, FExpiry => if (maxrt <=? n)%nat then (PGone, next, rel 0) else (PPending (S n), next + 1, rel next)
+  | PPending _, FCancel => (PGone, next, (if late_read then [Use 0] else []) ++ rel 0)
+  | PGone, FCancel => (PGone, next, if late_read then [Use 0] else [])
+  | PGone, _ => (PGone, next, [])
+  end.
+
+Fixpoint ping_run (maxrt : nat) (late_read : bool) (s : pstate) (next : Z) (fs : list pfin) : list (list lc) :=
+  match fs with
+  | [] => []
+  | f :: r => let '(s', next', w) := ping_step maxrt late_read s next f in w :: ping_run maxrt late_read s' next' r
+  end.
+
+(* one step of a ping as observed: who came, and the lifecycle events of the goroutine that performed the step *)
+Inductive ping_obs := PObs (f : pfin) (window : list lc).
+
+(* ---- net/blockwise: a caller gives a call up while receive paths work on its request ----
+   BlockWise.Do stores the request r OF THE CALLER in sendingMessagesCache and removes it again when it returns
+   (`defer sendingMessagesCache.Delete`, which takes the WRITE lock of the map); after that r is the caller's
+   alone: the application releases it (or net/client's Post/Put does, by defer).  A receive path (BlockWise.Handle
+   for a message with the call's token) reaches r only through the cache.  It works in sections: take the READ
+   lock, look the token up, read r k_in times if the entry is there (getSendingMessageCode; getSentRequest;
+   continueSendingMessage -> createSendingMessage: Token, Code, Context, Options, Type, BodySize, Body, Seek, Read),
+   give the lock back, and - in the variants this model exists to exclude - read r k_out more times afterwards.
+   Every access to shared state is one step; threads are scheduled arbitrarily; a thread that cannot move
+   (reader while the writer holds the lock, writer while a reader holds it) stutters.  sync.RWMutex also makes new
+   readers wait for a waiting writer: that only removes schedules. *)
+Inductive dpc := D0 (* waiting / giving up *) | D1 (* write lock taken *) | D2 (* entry deleted *) | D3 (* unlocked: Do returns *)
+               | D4 (* the application announced the release *) | D5 (* ReleaseMessage entered *) | D6 (* recycled *).
+Inductive rpc := RIdle | RLocked | RIn (found : bool) (k : nat) | ROut (k : nat).
+Record reader := { r_pc : rpc; r_todo : list (nat * nat) }.
+Record gstate := { g_d : dpc; g_entry : bool; g_rs : list reader; g_trace : list lc }.
+
+Definition holds (rd : reader) : bool := match r_pc rd with RLocked | RIn _ _ => true | _ => false end.
+Definition writer_held (d : dpc) : bool := match d with D1 | D2 => true | _ => false end.
+
+Fixpoint upd {A} (i : nat) (x : A) (l : list A) : list A :=
+  match l, i with
+  | [], _ => []
+  | _ :: r, O => x :: r
+  | y :: r, S j => y :: upd j x r
+  end.
+
+(* app = the application releases r itself (Do with its own request); false: the library does (Client.Post) *)
+Definition step_d (app : bool) (r : Z) (st : gstate) : gstate :=
+  match g_d st with
+  | D0 => if existsb holds (g_rs st) then st else {| g_d := D1; g_entry := g_entry st; g_rs := g_rs st; g_trace := g_trace st |}
+  | D1 => {| g_d := D2; g_entry := false; g_rs := g_rs st; g_trace := g_trace st |}
+  | D2 => {| g_d := D3; g_entry := g_entry st; g_rs := g_rs st; g_trace := g_trace st |}
+  | D3 => {| g_d := D4; g_entry := g_entry st; g_rs := g_rs st; g_trace := g_trace st ++ (if app then [AppRel r] else []) |}
+  | D4 => {| g_d := D5; g_entry := g_entry st; g_rs := g_rs st; g_trace := g_trace st ++ [Rel r] |}
+  | D5 => {| g_d := D6; g_entry := g_entry st; g_rs := g_rs st; g_trace := g_trace st ++ [Rec r] |}
+  | D6 => st
+  end.
+
+Definition set_reader (st : gstate) (i : nat) (rd : reader) (evs : list lc) : gstate :=
+  {| g_d := g_d st; g_entry := g_entry st; g_rs := upd i rd (g_rs st); g_trace := g_trace st ++ evs |}.
+
+Definition step_r (r : Z) (i : nat) (st : gstate) : gstate :=
+  match nth_error (g_rs st) i with
+  | None => st
+  | Some rd =>
+      match r_pc rd, r_todo rd with
+      | RIdle, [] => st
+      | RIdle, _ :: _ => if writer_held (g_d st) then st else set_reader st i {| r_pc := RLocked; r_todo := r_todo rd |} []
+      | RLocked, [] => st
+      | RLocked, (ki, _) :: _ => set_reader st i {| r_pc := RIn (g_entry st) (if g_entry st then ki else 0); r_todo := r_todo rd |} []
+      | RIn f (S k), _ => set_reader st i {| r_pc := RIn f k; r_todo := r_todo rd |} [Use r]
+      | RIn f O, [] => set_reader st i {| r_pc := RIdle; r_todo := [] |} []
+      | RIn f O, (_, ko) :: rest => set_reader st i {| r_pc := ROut (if f then ko else 0); r_todo := rest |} []
+      | ROut (S k), _ => set_reader st i {| r_pc := ROut k; r_todo := r_todo rd |} [Use r]
+      | ROut O, _ => set_reader st i {| r_pc := RIdle; r_todo := r_todo rd |} []
+      end
+  end.
+
+(* thread 0 is the caller, thread i + 1 the i-th receive path *)
+Definition gstep (app : bool) (r : Z) (st : gstate) (tid : nat) : gstate :=
+  match tid with O => step_d app r st | S i => step_r r i st end.
+
+Definition grun (app : bool) (r : Z) (sched : list nat) (st : gstate) : gstate := fold_left (gstep app r) sched st.
+
+Definition ginit (progs : list (list (nat * nat))) : gstate :=
+  {| g_d := D0; g_entry := true; g_rs := map (fun p => {| r_pc := RIdle; r_todo := p |}) progs; g_trace := [] |}.
+
+(* the receive path of a 2.31 Continue for the call's token (k = number of accesses createSendingMessage makes):
+   as it is, and with the next block built outside the lock (Cache.Load, then createSendingMessage(entry.Data())) *)
+Definition handle_continue_prog (k : nat) : list (nat * nat) := [(1%nat, 0%nat); (k, 0%nat)].
+Definition handle_continue_unlocked_prog (k : nat) : list (nat * nat) := [(1%nat, 0%nat); (0%nat, k)].
